@@ -160,6 +160,13 @@ impl Prop for C01P {
             "perturbed-programs" => {
                 let mut r = Rng::for_case(ctx.seed, 3, idx);
                 let mode = if idx % 2 == 0 { Mode::Explicit } else { Mode::Inferred };
+                if idx % 5 == 4 {
+                    // a planted type error hidden behind decoy definitions
+                    let Some(p) = crate::gen_prog::gen_trap_program(&mut r, mode) else { return };
+                    let src = print(&p.h, &Style::varied(&mut r), idx).text;
+                    check_program(ctx, &src, has_source_holes(&p.h), "trap", false);
+                    return;
+                }
                 let p = gen_program(&mut r, mode);
                 let Some((m, _)) = perturb(&p.h, &mut r) else { return };
                 let src = print(&m, &Style::varied(&mut r), idx).text;
@@ -179,6 +186,12 @@ impl Prop for C01P {
             "perturbed-programs" => {
                 let mut r = Rng::for_case(seed, 3, idx);
                 let mode = if idx % 2 == 0 { Mode::Explicit } else { Mode::Inferred };
+                if idx % 5 == 4 {
+                    return match crate::gen_prog::gen_trap_program(&mut r, mode) {
+                        Some(p) => print(&p.h, &Style::varied(&mut r), idx).text,
+                        None => String::new(),
+                    };
+                }
                 let p = gen_program(&mut r, mode);
                 match perturb(&p.h, &mut r) {
                     Some((m, _)) => print(&m, &Style::varied(&mut r), idx).text,
